@@ -530,3 +530,36 @@ def canon_view(f, src=None, **kw):
     g = copy.copy(f)
     g.node = dict(f.node, body=canon_fn(f, src, **kw))
     return g
+
+
+def value_helpers(src, file):
+    """private free functions of `file` whose body is ONE expression over identifier parameters (`fn clamp_float(x: f64) -> f64 { x.clamp(MIN, MAX) }`): name -> (param names, body expr)"""
+    out = {}
+    for f in src.fns:
+        if f.file != file or f.self_ty or f.test or not f.body or (f.node.get("vis") or "") == "pub":
+            continue
+        ps = [p for p in f.params if not p.get("self")]
+        if not ps or any(p["pat"].get("k") != "ident" for p in ps):
+            continue
+        b = f.body
+        while is_node(b) and b.get("k") == "block" and len(b["stmts"]) == 1 and b["stmts"][0].get("k") == "expr" and not b["stmts"][0].get("semi"):
+            b = b["stmts"][0]["e"]
+        if not is_node(b) or b.get("k") == "block":
+            continue
+        out[f.name] = ([p["pat"]["name"] for p in ps], b)
+    return out
+
+
+def inline_value_helpers(n, helpers, depth=0):
+    """copy of n in which every call `h(a, ..)` of a helper of `value_helpers` is replaced by its body with the arguments substituted (a one-expression helper is the expression it names)"""
+    if isinstance(n, list):
+        return [inline_value_helpers(x, helpers, depth) for x in n]
+    if not isinstance(n, dict) or not helpers:
+        return n
+    m = {a: (inline_value_helpers(b, helpers, depth) if isinstance(b, (dict, list)) else b) for a, b in n.items()}
+    if m.get("k") == "call" and is_node(m.get("f")) and m["f"].get("k") == "path" and len(m["f"].get("segs", [])) == 1 and m["f"]["segs"][0] in helpers and depth < 4:
+        names, body = helpers[m["f"]["segs"][0]]
+        if len(names) == len(m["args"]):
+            args = m["args"]  # the tree is structural: no parentheses needed
+            return inline_value_helpers(subst(body, dict(zip(names, args))), helpers, depth + 1)
+    return m
